@@ -443,7 +443,25 @@ func Main[C any](t *testing.T, s Spec[C]) {
 			b, _ := json.Marshal(replayFile{Property: s.ID, Seed: seed, Violation: "(process died while running this case)", Case: mustJSON(c)})
 			_ = os.WriteFile(eager, b, 0o644)
 		}
-		return safeRun(s, env, c)
+		o := safeRun(s, env, c)
+		// an outcome that starts with "harness:" reports a failure of the machinery (a scratch database that
+		// cannot be opened, a child process without an outcome, ...), not of pithos: run the case again; a
+		// persistent one is an inconclusive case (discarded and counted), never a violation; many of them
+		// end the shard as an infrastructure failure (exit 2 of the driver)
+		for try := 0; try < 2 && strings.HasPrefix(o.Violation, "harness:"); try++ {
+			frag.Counters["harness_error_retries"]++
+			o = safeRun(s, env, c)
+		}
+		if strings.HasPrefix(o.Violation, "harness:") {
+			frag.Counters["harness_errors_discarded"]++
+			fmt.Fprintf(os.Stderr, "INFRA %s: %s\n", s.ID, o.Violation)
+			if frag.Counters["harness_errors_discarded"] > 5 {
+				t.Fatalf("INFRA: more than 5 cases failed inside the harness, last: %s", o.Violation)
+			}
+			o.Violation = ""
+			o.Discard = true
+		}
+		return o
 	}
 
 	// --- regression replays: shrunk failures of defects that were fixed ----------
